@@ -491,7 +491,9 @@ def raisedName (it : Item) : StepRaised → String
 def countChan (c : Chan) (es : List Emission) : Nat := (es.filter (·.chan = c)).length
 
 def replayName (it : Item) (es : List Emission) : String :=
-  if es.isEmpty then "n/a" else if es.all (fun e => e.len == it.fullLen) then "same" else "differs"
+  if es.isEmpty then "n/a" else if es.all (fun e => e.len == it.fullLen) then "same"
+  -- only the last emission (the one `Execution::run` makes once unwinding is over) is the complete schedule
+  else if (es.getLast?.map (fun e => e.len == it.fullLen)).getD false then "last" else "differs"
 
 def formatLine (i : Nat) (it : Item) (o : StepOutcome) : String :=
   s!"run {i} persist={it.persist.name} kind={it.kindName} raised={raisedName it o.raised} " ++
